@@ -965,9 +965,10 @@ peg::parser! {
         rule tilde_expression() -> TildeExpr =
             &tilde_terminator() { TildeExpr::Home } /
             "+" &tilde_terminator() { TildeExpr::WorkingDir } /
-            plus:("+"?) n:$(['0'..='9']*) &tilde_terminator() { TildeExpr::NthDirFromTopOfDirStack { n: n.parse().unwrap(), plus_used: plus.is_some() } } /
+            // N.B. Digits that don't fit the index type are not a directory-stack reference.
+            plus:("+"?) n:$(['0'..='9']*) &tilde_terminator() {? n.parse().map(|n| TildeExpr::NthDirFromTopOfDirStack { n, plus_used: plus.is_some() }).or(Err("index in range")) } /
             "-" &tilde_terminator() { TildeExpr::OldWorkingDir } /
-            "-" n:$(['0'..='9']*) &tilde_terminator() { TildeExpr::NthDirFromBottomOfDirStack { n: n.parse().unwrap() } } /
+            "-" n:$(['0'..='9']*) &tilde_terminator() {? n.parse().map(|n| TildeExpr::NthDirFromBottomOfDirStack { n }).or(Err("index in range")) } /
             user:$(portable_filename_char()*) &tilde_terminator() { TildeExpr::UserHome(user.to_owned()) }
 
         rule tilde_terminator() = ['/' | ':' | ';' | '}'] / ![_]
